@@ -212,6 +212,48 @@ def cold_table_finish(ctx, proc, n, events):
         raise tlc.MachineryFailure("C14: %s violated in the length-%d run" % (r.violated, n))
 
 
+# ---- the interpreter's optimised mode (python -O strips assert statements): the decoded permutation, the quadrants
+# and the strict-word test must not depend on it; the observations become ordinary Trace_C14 events
+OPT = r"""
+import json, sys
+from permuta.permutils.pin_words import PinWords
+assert False, "this process must run with -O"
+out = []
+for w in json.loads(sys.argv[1]):
+    try:
+        out.append({"w": w, "perm": list(PinWords.pinword_to_perm(w)), "quad": [PinWords.quadrant(w, i) for i in range(len(w))]})
+    except Exception as e:
+        out.append({"w": w, "raise": type(e).__name__ + ": " + str(e)[:80]})
+print(json.dumps(out))
+"""
+
+
+def optimised_start(words):
+    return subprocess.Popen([sys.executable, "-O", "-c", OPT, json.dumps(words)], stdout=subprocess.PIPE, stderr=subprocess.PIPE, text=True)
+
+
+def optimised_finish(ctx, proc, events):
+    try:
+        out, err = proc.communicate(timeout=600)
+    except subprocess.TimeoutExpired as ex:
+        proc.kill()
+        raise tlc.MachineryFailure("C14: python -O process timed out") from ex
+    if proc.returncode != 0:
+        raise tlc.MachineryFailure("C14: python -O process failed: " + err[-300:])
+    recs = json.loads(out)
+    for r in recs:
+        case = {"kind": "trace-event", "interpreter": "python -O", "w": r["w"]}
+        ctx.case(("opt", r["w"]), nontrivial=len(r["w"]) >= 2)
+        if "raise" in r:
+            ctx.violation(case, "NoException", "the permutation of the pin word", r["raise"])
+            continue
+        events.append({"op": "Perm", "w": list(r["w"]), "res": r["perm"]})
+        for i, q in enumerate(r["quad"]):
+            if i % 3 == 0:
+                events.append({"op": "Quad", "w": list(r["w"]), "i": i, "res": q})
+    ctx.note("python_O_words", len(recs))
+
+
 # ---- code -> spec beyond the machine's bound: single-purpose events ---------------------------------------------------
 def rand_strict(rnd, n):
     w = rnd.choice("1234")
@@ -388,6 +430,7 @@ def run(ctx):
         s = util.rand_perm(rnd, rnd.choice([2, 3, 3]))
         us = PinWords.perm_to_pinword_mapping(len(s))[Perm(s)]
         events.append({"op": "Contains", "w": list(w), "s": list(s), "res": any(PinWords.pinword_contains(w, u) for u in us)})
+    opt = optimised_start([rand_word(n) for n in (1, 1, 2, 2, 3, 3, 4, 5, 6, 7, 8, 9)] + [rand_word(rnd.randint(2, 7)) for _ in range(20 if quick else 200)])
     nold = len(events)
     events += long_events(ctx, rnd, quick, rand_word)
     ctx.note("single_purpose_events", {op: sum(1 for e in events[nold:] if e["op"] == op) for op in ("Quad", "Factors", "SpToM", "MToSp", "Occ", "OccSP")})
@@ -399,6 +442,7 @@ def run(ctx):
     else:
         ctx.note("tables_not_lru_cached", True)
     cold_table_finish(ctx, cold, cold_n, events)
+    optimised_finish(ctx, opt, events)
     nch = 8
     chunks = [events[i::nch] for i in range(nch)]
     with concurrent.futures.ThreadPoolExecutor(max_workers=nch) as ex:
